@@ -717,3 +717,41 @@ def rule_observer_attrs(chk, rid, repo, cname, observers):
                    f"{oname} reads {sorted(reads)}" + ("" if not missing else f"; {missing} is not stored by the constructors of {cname}: "
                                                        "reading it before the first action raises AttributeError"),
                    rel=rel, node=f, nontrivial=False)
+
+
+import re as _re
+_STEP_NAME = _re.compile(r"^(cp_|w_|d_)?n(_?\d)?s?$|^(self\.)?_?(max_n|n|r)$|^steps?$")
+
+
+def rule_identity(chk, rid, repo, functions):
+    """step numbers are compared by value: `a is b` / `a is not b` on integers is true only while both happen to be the
+    same object (CPython shares small integers up to 256), so a guard or loop condition written that way changes its
+    meaning for longer calculations.  An operand is known to be a number if it is a counter attribute (_n, _r, _max_n),
+    a name of the step vocabulary (n0, n_1, cp_n, max_n, ...), an arithmetic expression or an integer literal."""
+    def numeric(e):
+        if isinstance(e, ast.Constant) and isinstance(e.value, int) and not isinstance(e.value, bool):
+            return True
+        if isinstance(e, ast.BinOp):
+            return True
+        if isinstance(e, ast.Name):
+            return bool(_STEP_NAME.match(e.id))
+        if isinstance(e, ast.Attribute) and isinstance(e.value, ast.Name) and e.value.id == "self":
+            return e.attr in ("_n", "_r", "_max_n")
+        return False
+
+    def singleton(e):
+        return (isinstance(e, ast.Constant) and (e.value is None or isinstance(e.value, bool))) or \
+            (isinstance(e, ast.Attribute) and isinstance(e.value, ast.Name) and e.value.id[:1].isupper())
+    for rel, q, f in functions:
+        k = 0
+        for x in ast.walk(f):
+            if isinstance(x, ast.Compare) and any(isinstance(o, (ast.Is, ast.IsNot)) for o in x.ops):
+                operands = [x.left] + list(x.comparators)
+                if any(singleton(e) for e in operands):
+                    continue
+                if any(numeric(e) for e in operands):
+                    chk.decide(rid, f"{rel[:-3].replace('/', '.')}.{q}#identity[{k}]", False,
+                               f"`{ast.unparse(x)}` compares step numbers by identity: equal integers above CPython's small-integer "
+                               "cache are distinct objects, so the test changes its outcome for calculations with more than 256 steps",
+                               rel=rel, node=x, nontrivial=False)
+                    k += 1
